@@ -65,6 +65,11 @@ FIELDS = {
     "T": {"a": ("Int", 0), "b": ("Int", 0), "c": ("Int", 0)},
     "Mutation": {"a": ("Int", 0), "b": ("Int", 0), "o": ("Obj", 0)},
 }
+# the `__typename` meta field is an ordinary resolved field of every composite type: resolve_field is
+# called with TYPE_NAME_INTROSPECTION_FIELD, so the field hooks fire and the middlewares wrap its resolver
+META = "__typename"
+for _t in FIELDS.values():
+    _t[META] = ("String", 0)
 CONFIGS = ("blocking", "generic", "asyncio", "threadpool")
 DEFERRED_CFG = ("asyncio", "threadpool")
 
@@ -190,6 +195,41 @@ async def _aio_2(root, ctx, info, **kw):
     return _body(info)
 
 
+def _instrument_meta_field():
+    """record Invoke / Return around the library's own resolver of `__typename`
+    (a module level Field object shared by all schemas)"""
+    from py_gql.schema.introspection import TYPE_NAME_INTROSPECTION_FIELD as f
+    orig = f.resolver
+    if getattr(orig, "_c16_recording", False):
+        return
+
+    def typename_resolver(root, ctx, info, **kw):
+        rec = _Run.ev is not None
+        if rec:
+            _Run.ev.append(["Inv", list(info.path)])
+        r = orig(root, ctx, info, **kw)
+        if rec:
+            _Run.ev.append(["Ret", list(info.path)])
+        return r
+
+    typename_resolver._c16_recording = True
+    f.resolver = typename_resolver
+
+
+_instrument_meta_field()
+
+
+def is_deferred_field(case, parent_type, name):
+    """is the resolver of this field handed to the runtime (parked by the controller)?"""
+    if case["config"] not in DEFERRED_CFG:
+        return False
+    if name == META:
+        # not the default resolver, so ThreadPoolRuntime.wrap_callable submits it; a plain function under
+        # the controller's AsyncIORuntime (no thread offloading) is called inline
+        return case["config"] == "threadpool"
+    return ("%s.%s" % (parent_type, name)) in set(case["deferred"])
+
+
 _SCHEMAS = {}
 
 
@@ -228,14 +268,24 @@ def _instrumentation(case):
 
 
 # ------------------------------------------------------------------ documents
-def _render_sel(sel):
+def _render_sel(sel, parent_type="Query", frag=None, frags=None):
+    """frag: None | "inline" | "spread": how the sub-selections of composite fields are written
+    (`{ .. }`, `{ ... on T { .. } }`, `{ ...Fn }` + fragment definitions); the resolved fields are the same"""
     out = []
     for alias, name, arg, sub in sel:
         s = ("%s: %s" % (alias, name)) if alias else name
         if arg is not None:
             s += "(i: %s)" % arg
         if sub:
-            s += " { %s }" % _render_sel(sub)
+            tname = FIELDS[parent_type][name][0]
+            inner = _render_sel(sub, tname, frag, frags)
+            if frag == "inline":
+                inner = "... on %s { %s }" % (tname, inner)
+            elif frag == "spread":
+                fname = "F%d" % len(frags)
+                frags.append("fragment %s on %s { %s }" % (fname, tname, inner))
+                inner = "...%s" % fname
+            s += " { %s }" % inner
         out.append(s)
     return " ".join(out)
 
@@ -243,8 +293,10 @@ def _render_sel(sel):
 def doc_text(case):
     if case["kind"] != "exec":
         return case["doc"]
-    head = "mutation " if case["op"] == "mutation" else ""
-    return "%s{ %s }" % (head, _render_sel(case["sel"]))
+    mut = case["op"] == "mutation"
+    frags = []
+    body = _render_sel(case["sel"], "Mutation" if mut else "Query", case.get("frag"), frags)
+    return "%s{ %s }%s" % ("mutation " if mut else "", body, "".join(" " + f for f in frags))
 
 
 def build_tree(case):
@@ -253,8 +305,6 @@ def build_tree(case):
     the field returns a value; the Coq side prunes)."""
     if case["kind"] != "exec":
         return []
-    deferred = set(case["deferred"]) if case["config"] in DEFERRED_CFG else set()
-
     def go(parent_type, prefix_rel, path, sel):
         nodes = []
         for alias, name, arg, sub in sel:
@@ -272,7 +322,7 @@ def build_tree(case):
                         kids.extend(go(tname, [idx], p + [idx], sub))
                 else:
                     kids = go(tname, [], p, sub)
-            nodes.append([prefix_rel + [key], out, ("%s.%s" % (parent_type, name)) in deferred, kids])
+            nodes.append([prefix_rel + [key], out, is_deferred_field(case, parent_type, name), kids])
         return nodes
 
     return go("Mutation" if case["op"] == "mutation" else "Query", [], [], case["sel"])
@@ -490,7 +540,7 @@ def _cprog(enc, case, argerr):
                 body = "(BList false %s)" % items
             else:
                 body = "(BObj %s)" % flds(tname, p, sub)
-            dfr = "(Some (O, O))" if ("%s.%s" % (parent_type, name)) in deferred else "None"
+            dfr = "(Some (O, O))" if is_deferred_field(case, parent_type, name) else "None"
             out = "(FCons (Fld %d %s false %s) %s)" % (enc.elem(key), dfr, body, out)
         return out
 
@@ -592,6 +642,18 @@ def corpus():
             out.append(_base(config, sel=[[None, "i", None, [[None, "a", None, []]]], [None, "a", None, []]],
                              world={"i": "cerr"}, n=1, k=2, stacking="tracer",
                              deferred=["Query.i"] if config in DEFERRED_CFG else []))
+        # seeded C16-e: a `__typename` hot path that bypasses resolve_field (no hooks, no middlewares):
+        # plain and aliased, at the query / mutation root, in objects, on list items, under an abstract
+        # type, written directly / through inline fragments / through fragment spreads
+        tn_sel = [[None, META, None, []], ["tn1", META, None, []],
+                  [None, "o", None, [[None, META, None, []], [None, "a", None, []]]],
+                  [None, "l", None, [[None, META, None, []]]],
+                  [None, "i", None, [["tn2", META, None, []], [None, "a", None, []]]]]
+        for frag in (None, "inline", "spread"):
+            out.append(_base(config, sel=tn_sel, lens={"l": 2}, n=1, k=2, stacking="tracer", frag=frag,
+                             deferred=["Query.o"] if config in DEFERRED_CFG else []))
+        out.append(_base(config, op="mutation", sel=[[None, META, None, []], [None, "a", None, []],
+                                                     [None, "o", None, [[None, META, None, []]]]], n=2))
         out.append(_base(config, op="mutation", sel=[[None, "a", None, []], [None, "b", None, []]],
                          world={"a": "err"}, n=1, deferred=["Mutation.a", "Mutation.b"] if config in DEFERRED_CFG else []))
     return out
@@ -611,7 +673,7 @@ def _gen_sel(rng, parent, depth, budget):
             tname = "Int"
         alias = None
         if name in used or rng.random() < 0.2:
-            alias = "%s%d" % (name, len(used) + rng.randint(1, 9) * 10)
+            alias = "%s%d" % ("tn" if name == META else name, len(used) + rng.randint(1, 9) * 10)
         key = alias or name
         if key in used:
             continue
@@ -662,6 +724,8 @@ def _gen_exec(rng, config, max_deferred, max_orders):
                 case["lens"][_pkey(p)] = rng.choice([0, 1, 2, 2])
     for p, _parent, name in _paths(case):
         r = rng.random()
+        if name == META:
+            continue      # the library's resolver always returns the type name
         if name == "i" and config != "blocking" and r < 0.3:
             # BlockingExecutor lets a completion-time ResolverError escape (a crash, outside C16)
             case["world"][_pkey(p)] = "cerr"
@@ -675,7 +739,9 @@ def _gen_exec(rng, config, max_deferred, max_orders):
             if s[1] == "x":
                 s[2] = '"s"'
                 case["novalidate"] = True
-    used = sorted({"%s.%s" % (parent, name) for _p, parent, name in _paths(case)})
+    used = sorted({"%s.%s" % (parent, name) for _p, parent, name in _paths(case) if name != META})
+    if rng.random() < 0.3:
+        case["frag"] = rng.choice(["inline", "spread"])
     if config in DEFERRED_CFG:
         rng.shuffle(used)
         chosen = []
@@ -684,7 +750,7 @@ def _gen_exec(rng, config, max_deferred, max_orders):
             if _count_deferred(build_tree(case)) <= max_deferred:
                 chosen.append(d)
         case["deferred"] = sorted(chosen)
-    elif rng.random() < 0.6:
+    elif used and rng.random() < 0.6:
         case["deferred"] = sorted(rng.sample(used, rng.randint(1, len(used))))  # shared base resolvers
     return case
 
